@@ -637,6 +637,27 @@ func runWorkloadIn(in wlInput, scratch []byte, rec *memRec) (out []byte) {
 		t.add("jsident", js.AsIdentifierName(d), js.AsDecimalLiteral(d), js.IsIdentifierStart(d), js.IsIdentifierContinue(d), js.IsIdentifierEnd(d))
 		r1, g1, b1 := css.HSL2RGB(float64(in.opt)/64, float64(len(d)%7)/7, 0.5)
 		t.add("hsl", r1, g1, b1)
+		// Once more directly on the caller's own array (which a caller may have used for another
+		// value before, and whose spare capacity the library may borrow) instead of on fresh copies:
+		// whatever the library remembers about an argument by its address, or keeps of it beyond
+		// the call, only shows this way.
+		call()
+		m2, params2 := parse.Mediatype(d)
+		keys2 := make([]string, 0, len(params2))
+		for k := range params2 {
+			keys2 = append(keys2, k)
+		}
+		sort.Strings(keys2)
+		t.add("mediatype-own-array", m2)
+		for _, k := range keys2 {
+			t.add(" param", k, params2[k])
+		}
+		call()
+		t.add("ident-own-array", css.IsIdent(d), css.IsURLUnquoted(d))
+		call()
+		t.add("trim-own-array", parse.TrimWhitespace(d))
+		mt2, data2, err2 := parse.DataURI(d)
+		t.add("datauri-own-array", mt2, data2, err2)
 	case wlPosition:
 		for _, off := range []int{0, len(d) / 2, len(d), in.opt % (len(d) + 1)} {
 			call()
